@@ -219,6 +219,22 @@ fn all3(m: &mut Mon, bits: usize, v: &[u64], s: usize) {
 fn workload(m: &mut Mon, bits: usize) {
     let l = gen::nlimbs(bits);
     let top = bits + 64 * l + 1;
+    // Interpreter lanes: the amounts at which the limb offset or the bit offset degenerates (0, one whole limb, BITS,
+    // 64 * LIMBS) on all-ones and on the sign-bit value, unthinned - the per-operation decay executes one or two
+    // amounts per width otherwise (seeded change C05-L: a limb read at index LIMBS for amount 0 at BITS % 64 = 0).
+    if m.is_light() {
+        let mut idx = 0u64;
+        for v in [gen::max(bits), if bits > 0 { gen::pow2(bits - 1, bits) } else { gen::zero(bits) }] {
+            for s in [0usize, 64, bits, 64 * l] {
+                for op in ["shl", "shr", "rot"] {
+                    idx += 1;
+                    if m.light_owns(idx, op) {
+                        m.case_always(op, bits, vec![au(&v), an(s)]);
+                    }
+                }
+            }
+        }
+    }
     let full_grid = bits <= 64 || (bits <= 257 && m.cfg.scale >= 8.0);
     // positions of the single set bit
     let positions: Vec<usize> = if bits == 0 {
